@@ -271,6 +271,9 @@ fn announce_step(with_suffix: bool) {
     }
     assert!(port.clock.commands() == 0 && port.filter.count == 0);
     assert!(port.instance_state.is_free());
+    // C17: one API call changes the shared data sets in at most one exclusive section (an observer taking the lock
+    // between two sections would see a half-applied update)
+    assert!(state.mut_sections.get() <= 1, "C17: data set update of one Announce split over several lock sections");
     kani::cover!(from_parent && accepted, "Announce from the parent");
     kani::cover!(!from_parent && accepted, "Announce from another acceptable master");
     kani::cover!(!accepted, "rejected Announce");
